@@ -74,8 +74,10 @@ theorem deliverArmed_needs_armed (conf : Conf) (c : Chan) (k id : Nat) (now : In
     · rename_i ha
       exact ⟨cl, hf, by simpa using ha⟩
 
-/-- … which it consumes: every delivery disarms the connection (`overshoot_le_one`: at most one
-message per guard evaluation, whatever happened to RDY / pause in between) -/
+/-- … which it consumes: every delivery disarms the connection (step level only — audit A8: this theorem says no more
+than "`armed = false` after a delivery", its hypothesis is not used). The statement its name promises — at most one
+message per guard evaluation, whatever happened to RDY / pause in between, as a property of EVERY history at micro-step
+granularity — is `Nsq.Props.C03Guard.every_delivery_has_its_guard` / `deliveries_le_guards`. -/
 theorem overshoot_le_one (conf : Conf) (c : Chan) (k id : Nat) (now : Int) {a : Nat}
     (h : (step conf c (.deliverArmed k id now)).2 = .msg a ∨ (step conf c (.deliver k id now)).2 = .msg a) :
     (∀ cl ∈ (step conf c (.deliverArmed k id now)).1.clients, cl.conn = k →
@@ -296,7 +298,12 @@ open Nsq.Model.ChanNsqd Nsq.Proofs.ChanNsqd
 /-- C03.5 `topic_pause_handshake` — once `pauseTopic` has returned (flag stored and the pump
 hand-shaken: regenerated fact `Tie.Chan.topicDoPause_eq`), the fan-out step is refused and changes
 nothing until `unpauseTopic`; meanwhile publishes are still acknowledged and enqueued
-(`C01.ack_implies_enqueued` has no pause hypothesis). -/
+(`C01.ack_implies_enqueued` has no pause hypothesis).
+Audit A10: in THIS model `pumpTopic` re-reads the flag (`pumpEnabled`), so the statement holds by the definition of
+the step. The real pump caches the decision; the statement with the cached bit, the flag store and the hand-shake as
+separate steps, over every schedule, is `Nsq.Props.C03Pause.topic_pause_handshake_micro` (+ `handshake_full_false_without_ack`:
+false without the hand-shake), and `C03Pause.atomic_model_exact_at_quiescence` shows this model's `pumpEnabled` is the
+cached bit whenever no `Pause()`/`UnPause()`/`GetChannel` call is in progress. -/
 theorem topic_pause_handshake (s : State) (t id : Nat) (kept : Bool) (pris : List (Nat × Int))
     {tp : Topic} (hf : findT s.topics t = some tp) (hp : tp.paused = true) :
     Nsq.Model.ChanNsqd.step s (.pumpTopic t id kept pris) = (s, .reject "pump-disabled") := by
